@@ -57,3 +57,26 @@ Proof. exact const_rename. Qed.
 Print Assumptions c06_rule_and_input_permutation. Print Assumptions c06_least_model_of_sets.
 Print Assumptions c06_head_clause_permutation. Print Assumptions c06_independent_body_items_swap.
 Print Assumptions c06_variable_renaming. Print Assumptions c06_relation_renaming. Print Assumptions c06_constant_renaming.
+
+(* ================= through the planner =================
+   With the planner inside the model (Plan/PlanModel.v compile_model, C01), the invariance no longer needs two dumped and
+   validated plans: for ANY two orderings of the rules, any SCC partitions of them meeting the decidable sccs_ok, and any two
+   orderings of the input, what planner + engine compute is the same set of facts. *)
+From AV Require Plan.PlanModel.
+From AV Require Plan.PlanWf.
+From AV Require Plan.PlanProofs.
+
+Theorem c06_planned_runs_invariant : forall I swap swap' arities P P' sccs sccs' fuel fuel' F0 F0' st st',
+  arities_functional arities -> no_agg P = true ->
+  Permutation P P' -> Permutation F0 F0' -> wf_facts arities F0 = true ->
+  PlanWf.wf_core arities P = true -> PlanWf.sccs_ok P sccs = true ->
+  PlanWf.wf_core arities P' = true -> PlanWf.sccs_ok P' sccs' = true ->
+  run_plan I swap fuel (PlanModel.compile_model arities P sccs) (init_state F0) = Some st ->
+  run_plan I swap' fuel' (PlanModel.compile_model arities P' sccs') (init_state F0') = Some st' ->
+  same_set (rows st) (rows st').
+Proof.
+  intros I swap swap' arities P P' sccs sccs' fuel fuel' F0 F0' st st' Har Hna HP HF Hwf Hw Hs Hw' Hs' Hr Hr'.
+  exact (run_perm_invariant I swap swap' arities P P' _ _ fuel fuel' F0 F0' st st' Har Hna HP HF Hwf
+           (PlanProofs.compile_model_valid arities P sccs Hw Hs) (PlanProofs.compile_model_valid arities P' sccs' Hw' Hs') Hr Hr').
+Qed.
+Print Assumptions c06_planned_runs_invariant.
